@@ -39,10 +39,15 @@ type c03Case struct {
 	tagged  bool // the stream carries a valid tag for this phantom: outside the property, correspondence only
 	class   string
 	world   int
+	// zz_verif_c03_geo_test.go: the source as the GeoIP database sees it, and statistics-epoch resets
+	peer   string // the peer address ("" = rotating, as before); "a.b.c.d/16" = IPv4 in 16-byte form
+	src    string // "cc:asn" answered by the scripted GeoIP stand-in ("" = the world's database)
+	resets string // "P0,R2,Q1": PrintAndReset / Reset before the k-th read, PrintAndReset before the k-th classification call
 }
 
 func (c c03Case) replay(seed int64) string {
-	return fmt.Sprintf("c03|seed=%d|world=%d|phantom=%s|geo=%s|tagged=%s|class=%s|script=%s", seed, c.world, c.phantom, c.geo, vlib.B(c.tagged), c.class, c34EvString(c.evs))
+	return fmt.Sprintf("c03|seed=%d|world=%d|phantom=%s|geo=%s|tagged=%s|class=%s|peer=%s|src=%s|resets=%s|script=%s", seed, c.world, c.phantom, c.geo, vlib.B(c.tagged), c.class,
+		c.peer, c.src, c.resets, c34EvString(c.evs))
 }
 
 var c03Remote = &net.TCPAddr{IP: net.IPv4(203, 0, 113, 99), Port: 40404}
@@ -71,6 +76,13 @@ func c03Fail(out *vlib.Out, sig, what, replay string) {
 // c03Check evaluates the property on the recorded calls of one finished (or hung) run; it reports
 // whether the oracle failed.
 func c03Check(out *vlib.Out, c *c03Case, run *c34Run, cn c34Canon, hung bool) (failed bool) {
+	if run.panicked != nil {
+		// nothing recovers a handler goroutine in the station: the process dies, this connection and every
+		// other open connection is closed at once - whatever the stream was
+		c03Fail(out, "C03:panic", fmt.Sprintf("panic: the handler panicked (the station process dies and closes every open connection at once): %v (class %s, phantom %s, %d registrations, peer %s, source %q, resets %q)",
+			run.panicked, c.class, c.phantom, run.count, run.conn.remote, c.src, c.resets), c.replay(vlib.Seed()))
+		return true
+	}
 	if c.geo == "cc" || c.geo == "asn" || c.geo == "nonip" {
 		out.Count("oracle:skipped-geoip-hypothesis")
 		return
@@ -231,11 +243,24 @@ func c03Run(out *vlib.Out, w *c34World, c *c03Case, limit time.Duration) {
 
 func c03RunOnce(out *vlib.Out, w *c34World, c *c03Case, limit time.Duration, record bool) (failed bool, took time.Duration) {
 	var remote net.Addr = c34Peer(40404)
+	if c.peer != "" {
+		remote = c03ParsePeer(c.peer)
+	}
 	geo := c.geo
 	if geo == "nonip" {
 		remote, geo = c03PipeAddr{}, "ok"
 	}
-	conn := newC34Scripted(c.evs, remote)
+	x := c03XOf(w)
+	cc, asn, geoOK := x.installGeo(c, geo, remote)
+	conn, hooked, atStart, err := x.conn(c, remote)
+	if err != nil {
+		c03Fail(out, "C03:harness", err.Error(), c.replay(vlib.Seed()))
+		return true, 0
+	}
+	for _, rs := range atStart {
+		x.reset(rs.kind == 'P')
+	}
+	snap := x.snap(asn)
 	began := time.Now()
 	run, done := w.start(conn, c.phantom, geo)
 	hung := false
@@ -252,12 +277,47 @@ func c03RunOnce(out *vlib.Out, w *c34World, c *c03Case, limit time.Duration, rec
 		c03Slow.Add(1)
 		out.Count("slow-probe(>2s)")
 	}
+	if hooked != nil {
+		conn.noDLRead = hooked.s.noDLRead
+	}
 	cn := w.canon(run)
 	failed = c03Check(out, c, run, cn, hung)
 	if !record {
 		return
 	}
 	out.Case(cn.modelLine, cn.implOut, cn.nontriv)
+	// the statistics transitions of this connection against the model's (no reset in the middle: the
+	// counters of the whole connection are then still there)
+	if hooked == nil && !hung && run.panicked == nil && run.returned {
+		if !geoOK {
+			cc = ""
+		}
+		if line, ok := c03StatsLine(cn.modelLine, net.ParseIP(c.phantom).To4() != nil, cc); ok {
+			out.Case(line, c03SnapDiff(snap, x.snap(asn)), geoOK)
+		}
+	}
+	out.Count("geodb:" + x.dbKind)
+	switch {
+	case !geoOK:
+		out.Count("source:lookup-fails")
+	case cc == "":
+		out.Count("source:no-country")
+	case cc == "unk":
+		out.Count("source:unk")
+	case asn == 0:
+		out.Count("source:country-without-asn")
+	default:
+		out.Count("source:country+asn")
+	}
+	if c.resets != "" {
+		for _, f := range strings.Split(c.resets, ",") {
+			if f[1:] == "0" {
+				out.Count("reset:before-connection")
+			} else {
+				out.Count("reset:" + map[byte]string{'P': "before-a-read", 'R': "before-a-read", 'Q': "before-a-classification"}[f[0]])
+			}
+		}
+	}
 	out.Count("class:" + c.class)
 	switch c.phantom {
 	case c34PhMany:
@@ -457,7 +517,9 @@ type c03Gen struct {
 }
 
 func (g *c03Gen) probe(class, phantom string, data []byte) {
-	g.emit(c03Case{phantom: phantom, geo: "ok", evs: c03End(g.r, c03Segment(g.r, data)), class: class})
+	c := c03Case{phantom: phantom, geo: "ok", evs: c03End(g.r, c03Segment(g.r, data)), class: class}
+	g.dress(&c)
+	g.emit(c)
 }
 
 func (g *c03Gen) anyPhantom() string { return c03Phantoms(g.r, g.w.nPairs) }
@@ -687,6 +749,7 @@ type c03RealRun struct {
 	run     *c34Run
 	raw     bool
 	phantom string
+	k       int
 }
 
 func c03RealSockets(out *vlib.Out, n int, wg *sync.WaitGroup) {
@@ -698,10 +761,35 @@ func c03RealSockets(out *vlib.Out, n int, wg *sync.WaitGroup) {
 			out.Note("real sockets: " + err.Error())
 			return
 		}
+		// the station's real MaxMind reader on hand-built databases that know the loopback peers
+		// (127.0.0.1 and ::1 lie in different ASNs), and a statistics loop that starts a new epoch
+		// every 150 ms while the probes are being handled
+		x, err := c03SetupWorld(w, -1)
+		if err != nil {
+			c03Fail(out, "C03:harness", "real sockets: "+err.Error(), "c03real|setup")
+			return
+		}
+		w.rm.GeoIP = x.db
 		if _, err := w.populate(); err != nil {
 			out.Note("real sockets: " + err.Error())
 			return
 		}
+		stopStats := make(chan struct{})
+		var statsDone sync.WaitGroup
+		statsDone.Add(1)
+		go func() {
+			defer statsDone.Done()
+			for k := 0; ; k++ {
+				select {
+				case <-stopStats:
+					return
+				case <-time.After(150 * time.Millisecond):
+					x.reset(k%2 == 0)
+					out.Count("real-socket:stats-epoch")
+				}
+			}
+		}()
+		defer func() { close(stopStats); statsDone.Wait() }()
 		var lns []net.Listener
 		for _, a := range []string{"127.0.0.1:0", "[::1]:0"} {
 			ln, err := net.Listen("tcp", a)
@@ -742,7 +830,7 @@ func c03RealSockets(out *vlib.Out, n int, wg *sync.WaitGroup) {
 						k := accepted
 						accepted++
 						srvMu.Unlock()
-						rr := &c03RealRun{raw: k%2 == 1, phantom: phantoms[(k/2)%len(phantoms)]}
+						rr := &c03RealRun{raw: k%2 == 1, phantom: phantoms[(k/2)%len(phantoms)], k: k}
 						ip := net.ParseIP(rr.phantom)
 						var hc net.Conn = c
 						var conn *c34Conn
@@ -754,7 +842,18 @@ func c03RealSockets(out *vlib.Out, n int, wg *sync.WaitGroup) {
 						srvMu.Lock()
 						srv[c.RemoteAddr().String()] = rr
 						srvMu.Unlock()
-						w.cm.handleNewTCPConn(w.rm, hc, ip)
+						func() {
+							// a panic of the handler is a crash of the station: recorded, and the connection
+							// closed at once (as the dying process would)
+							defer func() {
+								if p := recover(); p != nil {
+									srvMu.Lock()
+									rr.run.panicked = p
+									srvMu.Unlock()
+								}
+							}()
+							w.cm.handleNewTCPConn(w.rm, hc, ip)
+						}()
 						srvMu.Lock()
 						rr.run.tRet, rr.run.returned = time.Now(), true
 						srvMu.Unlock()
@@ -824,7 +923,7 @@ func c03RealSockets(out *vlib.Out, n int, wg *sync.WaitGroup) {
 					}
 					time.Sleep(10 * time.Millisecond)
 				}
-				rp := fmt.Sprintf("c03real|seed=%d|style=%s|segs=%d|data=%s", vlib.Seed(), p.style, p.segs, vlib.Hex(p.data))
+				rp := fmt.Sprintf("c03real|seed=%d|probe=%d|peer=%s|style=%s|segs=%d|data=%s", vlib.Seed(), i, local, p.style, p.segs, vlib.Hex(p.data))
 				out.Checked()
 				srvMu.Lock()
 				finished := rr != nil && rr.run.returned
@@ -839,6 +938,12 @@ func c03RealSockets(out *vlib.Out, n int, wg *sync.WaitGroup) {
 					how = "raw *net.TCPConn"
 				}
 				where := fmt.Sprintf("%s, phantom %s (%d registrations), peer %s", how, rr.phantom, run.count, local)
+				rp = strings.Replace(rp, "|style=", fmt.Sprintf("|accepted=%d|phantom=%s|raw=%s|style=", rr.k, rr.phantom, vlib.B(rr.raw)), 1)
+				if run.panicked != nil {
+					c03Fail(out, "C03:panic", fmt.Sprintf("real socket: the handler panicked %v after the connection was accepted (the station process dies and closes every open connection at once): %v (%s; GeoIP: the real MaxMind reader; statistics epochs of 150 ms)",
+						run.tRet.Sub(run.t0).Round(time.Millisecond), run.panicked, where), rp)
+					return
+				}
 				if len(got) > 0 {
 					c03Fail(out, "C03:write", fmt.Sprintf("real socket: the peer received %d bytes (%s)", len(got), where), rp)
 				}
@@ -914,6 +1019,9 @@ func TestVerifC03(t *testing.T) {
 		if err != nil {
 			t.Fatal(err)
 		}
+		if _, err := c03SetupWorld(w, wi); err != nil {
+			t.Fatal(err)
+		}
 		if clientsOf[wi], err = w.populate(); err != nil {
 			t.Fatal(err)
 		}
@@ -968,6 +1076,9 @@ func TestVerifC03(t *testing.T) {
 				g.flips(thorough)
 			case 2:
 				g.wrongPlace(thorough)
+			case 3, 4, 5:
+				// scripted GeoIP stand-in / the real MaxMind reader / the real EmptyDatabase
+				g.statsEpochs(thorough)
 			}
 			g.random(vlib.Budget(2500, 12000))
 		}(wi)
@@ -1005,6 +1116,9 @@ func c03Replay(t *testing.T, out *vlib.Out, path string) {
 			if w, err = newC34World(fmt.Sprintf("C03/%d", wi), ""); err != nil {
 				t.Fatal(err)
 			}
+			if _, err = c03SetupWorld(w, wi); err != nil {
+				t.Fatal(err)
+			}
 			if _, err = w.populate(); err != nil {
 				t.Fatal(err)
 			}
@@ -1014,10 +1128,10 @@ func c03Replay(t *testing.T, out *vlib.Out, path string) {
 		if err != nil {
 			t.Fatal(err)
 		}
-		c := c03Case{phantom: m["phantom"], geo: m["geo"], tagged: m["tagged"] == "1", class: m["class"], evs: evs}
+		c := c03Case{phantom: m["phantom"], geo: m["geo"], tagged: m["tagged"] == "1", class: m["class"], evs: evs, peer: m["peer"], src: m["src"], resets: m["resets"]}
 		fmt.Sscan(m["world"], &c.world)
 		c03Run(out, w, &c, 60*time.Second)
-		fmt.Fprintf(os.Stderr, "REPLAY c03 class=%s phantom=%s geo=%s events=%d\n", c.class, c.phantom, c.geo, len(evs))
+		fmt.Fprintf(os.Stderr, "REPLAY c03 class=%s phantom=%s geo=%s peer=%s src=%s resets=%s events=%d\n", c.class, c.phantom, c.geo, c.peer, c.src, c.resets, len(evs))
 	}
 	if len(reals) > 0 {
 		var bg sync.WaitGroup
